@@ -296,8 +296,64 @@ def op_index_swap(tree):
             yield f"line {sites[k].lineno}", t
 
 
+def op_drop_sparse_stmt(tree):
+    """replace one assignment inside a CSC kernel / CSC accessor by `pass`"""
+    def is_sparse_fn(n):
+        return isinstance(n, ast.FunctionDef) and (n.name.endswith("_sparse") or n.name.endswith("_s")
+                                                   or n.name in ("_sparse_xj_dot", "_X_dot_vec", "_XT_dot_vec",
+                                                                 "sparse_columns_slice"))
+    fns = _sites(tree, is_sparse_fn)
+    for i, fn in enumerate(fns):
+        stmts = [n for n in ast.walk(fn) if isinstance(n, ast.AugAssign)
+                 or (isinstance(n, ast.Assign) and isinstance(n.targets[0], ast.Subscript))]
+        for k in range(len(stmts)):
+            t = copy.deepcopy(tree)
+            fn2 = _sites(t, is_sparse_fn)[i]
+            st = [n for n in ast.walk(fn2) if isinstance(n, ast.AugAssign)
+                  or (isinstance(n, ast.Assign) and isinstance(n.targets[0], ast.Subscript))][k]
+            for parent in ast.walk(fn2):
+                for fld in ("body", "orelse"):
+                    lst = getattr(parent, fld, None)
+                    if isinstance(lst, list) and st in lst:
+                        lst[lst.index(st)] = ast.Pass()
+            yield f"{fn.name} line {stmts[k].lineno}", t
+
+
+def op_scale_threshold(tree):
+    """double the threshold argument of a soft-/block-thresholding call (ST, BST, prox_MCP ...)"""
+    def pred(n):
+        return isinstance(n, ast.Call) and isinstance(n.func, ast.Name) and n.func.id in (
+            "ST", "BST", "ST_vec", "prox_MCP", "prox_SCAD") and len(n.args) >= 2
+    sites = _sites(tree, pred)
+    for k in range(len(sites)):
+        t = copy.deepcopy(tree)
+        c = _sites(t, pred)[k]
+        c.args[1] = ast.BinOp(ast.Constant(2.0), ast.Mult(), c.args[1])
+        yield f"{sites[k].func.id} line {sites[k].lineno}", t
+
+
+def op_flip_compare(tree):
+    """`<` <-> `>` in one comparison of a prox helper or a block penalty method"""
+    def pred(n):
+        return isinstance(n, ast.Compare) and len(n.ops) == 1 and isinstance(n.ops[0], (ast.Lt, ast.Gt, ast.LtE, ast.GtE))
+    sites = _sites(tree, pred)
+    flip = {ast.Lt: ast.Gt, ast.Gt: ast.Lt, ast.LtE: ast.GtE, ast.GtE: ast.LtE}
+    for k in range(len(sites)):
+        t = copy.deepcopy(tree)
+        c = _sites(t, pred)[k]
+        c.ops = [flip[type(c.ops[0])]()]
+        yield f"line {sites[k].lineno}", t
+
+
 OPERATORS = {
     # operator: (generator, files, properties expected to kill it)
+    "drop a statement of a CSC kernel": (op_drop_sparse_stmt, ["solvers/anderson_cd.py", "solvers/group_bcd.py",
+                                                               "solvers/multitask_bcd.py", "solvers/prox_newton.py",
+                                                               "solvers/common.py", "utils/sparse_ops.py",
+                                                               "datafits/group.py", "datafits/multi_task.py"],
+                                         {"C10"}),
+    "double a threshold": (op_scale_threshold, ["penalties/separable.py", "penalties/block_separable.py"], {"C07"}),
+    "flip a comparison": (op_flip_compare, ["utils/prox_funcs.py", "penalties/block_separable.py"], {"C07", "C08"}),
     "inf->0 initialisation": (op_inf_to_zero, ["solvers/anderson_cd.py", "solvers/gram_cd.py", "solvers/multitask_bcd.py",
                                                "solvers/group_bcd.py", "solvers/prox_newton.py", "solvers/fista.py"],
                               {"C01", "C17", "C08", "C04"}),
@@ -358,11 +414,13 @@ def run_mutants(pid, base_keys, workdir, cap=80):
     if jobs:
         with cf.ProcessPoolExecutor(max_workers=min(14, len(jobs))) as ex:
             for lab, keys, und, err in ex.map(_eval_variant, jobs):
-                d = per.setdefault(meta[lab], dict(operator=meta[lab], mutants=0, killed=0, survivors=[]))
+                d = per.setdefault(meta[lab], dict(operator=meta[lab], mutants=0, killed=0, undecided=0, survivors=[]))
                 d["mutants"] += 1
-                if err or und or [k for k in keys if k not in base_keys]:
-                    d["killed"] += 1
+                if [k for k in keys if k not in base_keys]:
+                    d["killed"] += 1          # reported as a violation naming a construct
                     killed += 1
+                elif err or und:
+                    d["undecided"] += 1       # analysis stopped (exit 2): not a pass, not a report
                 else:
                     d["survivors"].append(lab.split("|", 1)[1])
     res = list(per.values())
